@@ -30,13 +30,15 @@ LangOf(p, lglob) ==
       [] p = "src/w.mjsx" -> IF lglob = "extra" THEN "JavaScript" ELSE "none"
       [] OTHER -> "none"
 
-Globs == {"src/**", "**/sub/**", "test/**", "**/*.js", "src/a.js", "lib/**"}
+Globs == {"src/**", "**/sub/**", "test/**", "**/*.js", "src/a.js", "lib/**", "src/*.js"}
 GlobMatch(g, p) ==
     CASE g = "src/**"    -> p \in {"src/a.js", "src/sub/b.js", "src/x.ts", "src/p.view.ts", "src/w.mjsx"}
       [] g = "**/sub/**" -> p = "src/sub/b.js"
       [] g = "test/**"   -> p = "test/c.js"
       [] g = "**/*.js"   -> p \in {"a.js", "src/a.js", "src/sub/b.js", "test/c.js"}
       [] g = "src/a.js"  -> p = "src/a.js"
+      \* a single `*` is "zero or more characters" and crosses directory separators (globset without literal_separator)
+      [] g = "src/*.js"  -> p \in {"src/a.js", "src/sub/b.js"}
       [] OTHER           -> p = "lib/y.py"
 
 Severities == {"error", "warning", "info", "hint", "off"}
